@@ -24,7 +24,9 @@
                     is given in Jacobian form (mode "jtable") and rescaled by the reader in between *)
 EXTENDS Naturals, Sequences, TLC
 
-CONSTANTS N, EARLY_PUBLISH, SPLIT_ASSIGN, TORN_READ
+CONSTANTS N, EARLY_PUBLISH, SPLIT_ASSIGN, TORN_READ,
+          LOCKED   \* "none" (the real code) / "finally" / "nofinally": the table construction triggered by a
+                   \* multiplication is serialised by one lock; released on every exit, or only on the normal one
 
 VARIABLES mode,    \* "table": the object is a generator (affine);  "scale": a Jacobian point, no generator;
                    \* "jtable": a generator given in Jacobian form (z # 1): the table is built while the reader rescales it
@@ -35,8 +37,9 @@ VARIABLES mode,    \* "table": the object is a generator (affine);  "scale": a J
           coords,  \* self.__coords
           tmp,     \* builder's locals holding the triple it read
           rdone,   \* some reader operation has run (then the reader may have published / rescaled)
-          obs      \* the last complete reader operation
-vars == <<mode, bpc, loc, pub, shared, coords, tmp, rdone, obs>>
+          obs,     \* the last complete reader operation
+          lk       \* the table lock (LOCKED # "none"): "free" or "A" (readers are complete operations: they never hold it across steps)
+vars == <<mode, bpc, loc, pub, shared, coords, tmp, rdone, obs, lk>>
 
 Prefix(k) == SubSeq([j \in 1..N |-> j], 1, k)
 Full == Prefix(N)
@@ -75,7 +78,8 @@ EffectStarTo(l2, p2, s2, c2) ==
 -----------------------------------------------------------------------------
 Modes == {"table", "scale", "jtable"}
 Init == /\ mode \in Modes
-        /\ bpc = IF mode = "scale" THEN "s_read" ELSE "p_test"
+        /\ bpc = IF mode = "scale" THEN "s_read" ELSE IF LOCKED = "none" THEN "p_test" ELSE "p_lock"
+        /\ lk = "free"
         /\ loc = <<>> /\ pub = <<>> /\ shared = FALSE
         /\ coords = IF mode = "table" THEN New ELSE Old
         /\ tmp = <<"-", "-", "-">>
@@ -83,11 +87,12 @@ Init == /\ mode \in Modes
         /\ obs = [op |-> "none", seen |-> 0, ok |-> TRUE]
 
 Go(l) == bpc' = l
+PEnd == IF LOCKED = "none" THEN "done" ELSE "p_unlock"
 AppendLoc == /\ loc' = Append(loc, IF Affine(tmp) = "P" THEN Len(loc) + 1 ELSE 0)
              /\ pub' = IF shared THEN loc' ELSE pub
 
 (* _maybe_precompute, ellipticcurve.py:577-601 *)
-P_Test    == bpc = "p_test" /\ Go(IF pub # <<>> THEN "done" ELSE "p_new")          \* if ... or self.__precompute: return
+P_Test    == bpc = "p_test" /\ Go(IF pub # <<>> THEN PEnd ELSE "p_new")          \* if ... or self.__precompute: return
              /\ UNCHANGED <<loc, pub, shared, coords, tmp>>
 P_New     == bpc = "p_new" /\ Go("p_coords") /\ loc' = <<>>                          \* precompute = []
              /\ (IF EARLY_PUBLISH THEN pub' = <<>> /\ shared' = TRUE ELSE UNCHANGED <<pub, shared>>)
@@ -106,7 +111,7 @@ P_Double  == bpc = "p_double" /\ Go("p_append")                                 
              /\ UNCHANGED <<loc, pub, shared, coords, tmp>>
 P_Append  == bpc = "p_append" /\ Go("p_while") /\ AppendLoc                          \* precompute.append(...)
              /\ UNCHANGED <<shared, coords, tmp>>
-P_Publish == bpc = "p_publish" /\ Go("done") /\ pub' = loc /\ shared' = TRUE         \* self.__precompute = precompute
+P_Publish == bpc = "p_publish" /\ Go(PEnd) /\ pub' = loc /\ shared' = TRUE         \* self.__precompute = precompute
              /\ UNCHANGED <<loc, coords, tmp>>
 
 (* scale, ellipticcurve.py:689-707 *)
@@ -122,39 +127,54 @@ S_AX      == bpc = "s_ax" /\ Go("s_ay") /\ coords' = <<Scaled(tmp)[1], coords[2]
 S_AY      == bpc = "s_ay" /\ Go("s_az") /\ coords' = <<coords[1], Scaled(tmp)[2], coords[3]>> /\ UNCHANGED <<loc, pub, shared, tmp>>
 S_AZ      == bpc = "s_az" /\ Go("done") /\ coords' = <<coords[1], coords[2], Scaled(tmp)[3]>> /\ UNCHANGED <<loc, pub, shared, tmp>>
 
-Builder == /\ \/ P_Test \/ P_New \/ P_Coords \/ P_Coords2 \/ P_First \/ P_While \/ P_Double \/ P_Append \/ P_Publish
-              \/ S_Read \/ S_Test \/ S_Compute \/ S_Assign \/ S_AX \/ S_AY \/ S_AZ
+(* variant LOCKED: `lock.acquire(); self._maybe_precompute(); lock.release()` around the construction *)
+P_Lock    == bpc = "p_lock" /\ lk = "free" /\ lk' = "A" /\ Go("p_test") /\ UNCHANGED <<loc, pub, shared, coords, tmp>>
+P_Unlock  == bpc = "p_unlock" /\ lk' = "free" /\ Go("done") /\ UNCHANGED <<loc, pub, shared, coords, tmp>>
+
+Builder == /\ \/ /\ \/ P_Test \/ P_New \/ P_Coords \/ P_Coords2 \/ P_First \/ P_While \/ P_Double \/ P_Append \/ P_Publish
+                    \/ S_Read \/ S_Test \/ S_Compute \/ S_Assign \/ S_AX \/ S_AY \/ S_AZ
+                 /\ UNCHANGED lk
+              \/ P_Lock \/ P_Unlock
            /\ UNCHANGED <<mode, rdone, obs>>
+
+(* the builder's operation is abandoned at any statement (an exception: failed precondition, KeyboardInterrupt, ...) *)
+Interrupt == /\ bpc \notin {"done", "aborted"}
+             /\ bpc' = "aborted"
+             /\ lk' = IF LOCKED = "finally" THEN "free" ELSE lk
+             /\ UNCHANGED <<mode, loc, pub, shared, coords, tmp, rdone, obs>>
 
 (* reader: complete operations *)
 \* k*G: own complete _maybe_precompute (publishes a list of its own if none is published), then one pass over the table
 RdMul == /\ mode \in {"table", "jtable"}
+         /\ (LOCKED = "none" \/ pub # <<>> \/ lk = "free")       \* (variant LOCKED: waits for the lock when it has to build)
          /\ LET t == IF pub = <<>> THEN TableFrom(coords) ELSE pub
             IN /\ pub' = t
                /\ shared' = IF pub = <<>> THEN FALSE ELSE shared
                /\ obs' = [op |-> "mul", seen |-> Len(pub), ok |-> t = Full]
          /\ rdone' = TRUE
-         /\ UNCHANGED <<mode, bpc, loc, coords, tmp>>
+         /\ UNCHANGED <<mode, bpc, loc, coords, tmp, lk>>
 \* ==, x(), y(): one read of the triple
 RdEq  == /\ obs' = [op |-> "eq", seen |-> Len(pub), ok |-> Affine(coords) = "P"]
          /\ rdone' = TRUE
-         /\ UNCHANGED <<mode, bpc, loc, pub, shared, coords, tmp>>
+         /\ UNCHANGED <<mode, bpc, loc, pub, shared, coords, tmp, lk>>
 \* k*Q on a point without table: own complete scale(), then the ladder on the triple
 RdScaleMul == /\ mode \in {"scale", "jtable"}
               /\ coords' = IF coords[3] = "one" THEN coords ELSE Scaled(coords)
               /\ obs' = [op |-> "smul", seen |-> Len(pub), ok |-> Affine(coords') = "P"]
               /\ rdone' = TRUE
-              /\ UNCHANGED <<mode, bpc, loc, pub, shared, tmp>>
+              /\ UNCHANGED <<mode, bpc, loc, pub, shared, tmp, lk>>
 Reader == RdMul \/ RdEq \/ RdScaleMul
 
-Finished == bpc = "done" /\ UNCHANGED vars
-Next == Builder \/ Reader \/ Finished
+Finished == bpc \in {"done", "aborted"} /\ UNCHANGED vars
+Next == Builder \/ Interrupt \/ Reader \/ Finished
 Spec == Init /\ [][Next]_vars /\ WF_vars(Builder)
 
 -----------------------------------------------------------------------------
 TypeOK == /\ mode \in Modes
           /\ bpc \in {"p_test", "p_new", "p_coords", "p_coords2", "p_first", "p_while", "p_double", "p_append", "p_publish",
-                      "s_read", "s_test", "s_compute", "s_assign", "s_ax", "s_ay", "s_az", "done"}
+                      "s_read", "s_test", "s_compute", "s_assign", "s_ax", "s_ay", "s_az", "done",
+                      "p_lock", "p_unlock", "aborted"}
+          /\ lk \in {"free", "A"}
           /\ Len(loc) <= N /\ Len(pub) <= N
           /\ shared \in BOOLEAN /\ rdone \in BOOLEAN
           /\ obs.ok \in BOOLEAN
@@ -162,6 +182,8 @@ TypeOK == /\ mode \in Modes
 ReaderOK == obs.ok /\ obs.seen \in {0, N}
 \* every builder statement is one of the effects the trace spec allows between two preemption points
 StepsAreEffects == [][bpc' # bpc => EffectTo(loc', pub', shared', coords')]_vars
-BuilderFinishes == <>(bpc = "done")
+BuilderFinishes == <>(bpc \in {"done", "aborted"})
+\* nobody who needs the table is locked out for ever, also after an abandoned construction
+NeverBlockedForever == []<>(lk = "free")
 FinalOK == bpc = "done" => (mode # "scale" => TableComplete) /\ (mode = "scale" => IsScaled)
 =============================================================================
